@@ -1,8 +1,626 @@
-//! Monitors that need the reference satisfier R3: C02 (L2, L3), C03 (A1), C07 (P7).
+//! Monitors that need the reference satisfier R3: C02 (L1, L2), C03 (A1), C07 (P7).
+
+use std::collections::BTreeSet;
+
+use bitcoin::hashes::{hash160, sha256, Hash};
 use bitcoin::psbt::Psbt;
-use bitcoin::Transaction;
-use crate::monitors::Produced;
-use crate::sim::World;
-pub fn check_reference(_w: &mut World, _actor: &str, _psbt: &Psbt, _i: usize, _produced: &[Produced], _ok: [bool; 4]) {}
-pub fn relay_attack(_w: &mut World, _tx: &Transaction, _tampered: u64) {}
-pub fn liveness(_w: &mut World) {}
+use bitcoin::taproot::TapLeafHash;
+use bitcoin::{ScriptBuf, Transaction};
+use miniscript::descriptor::ShInner;
+use miniscript::policy::{Liftable, Semantic};
+use miniscript::{DefiniteDescriptorKey, Descriptor};
+
+use crate::gen::OutKind;
+use crate::keys::HashKind;
+use crate::monitors::{exec_spend, guard, raise, raise_class, Produced};
+use crate::refsat::{ref_taproot, Item, RefCtx, RefTaproot, RefWorld, Wit};
+use crate::rng::{fnv, mix};
+use crate::sim::{Env, World};
+use crate::vm::{self, push_data, Flags};
+use crate::wallet::{tx_satisfies_after, tx_satisfies_older, WorldSat};
+
+pub fn ref_world(sat: &WorldSat, adversarial: bool) -> RefWorld {
+    let mut sigs: BTreeSet<usize> = sat.ecdsa.keys().copied().collect();
+    sigs.extend(sat.tap_key.keys().copied());
+    RefWorld {
+        sigs,
+        leaf_sigs: sat.tap_script.keys().copied().collect(),
+        preimages: sat.preimages.clone(),
+        lock_time: sat.lock_time,
+        sequence: sat.sequence,
+        version: sat.version,
+        adversarial,
+    }
+}
+
+#[derive(Clone, Copy, PartialEq, Eq)]
+enum KeyEnc {
+    Full,
+    XOnly,
+}
+
+fn concretize(env: &Env, sat: &WorldSat, w: &Wit, enc: KeyEnc, leaf: Option<TapLeafHash>) -> Option<Vec<Vec<u8>>> {
+    let mut out = vec![];
+    for it in &w.stack {
+        out.push(match it {
+            Item::Sig(k) => match leaf {
+                Some(l) => sat.tap_script.get(&(*k, l))?.to_vec(),
+                None => sat.ecdsa.get(k)?.to_vec(),
+            },
+            Item::Key(k) => match enc {
+                KeyEnc::Full => env.uni.keys[*k].public.to_bytes(),
+                KeyEnc::XOnly => env.uni.keys[*k].xonly.serialize().to_vec(),
+            },
+            Item::Pre(h) => env.uni.hashes[*h].preimage.to_vec(),
+            Item::Zero32 => vec![0u8; 32],
+            Item::Junk32 => vec![0x42u8; 32],
+            Item::Empty => vec![],
+            Item::One => vec![1],
+        });
+    }
+    Some(out)
+}
+
+fn pushes(items: &[Vec<u8>]) -> ScriptBuf {
+    let mut v = vec![];
+    for i in items {
+        push_data(&mut v, i);
+    }
+    ScriptBuf::from_bytes(v)
+}
+
+pub struct RefSpend {
+    pub wit: Vec<Vec<u8>>,
+    pub ss: ScriptBuf,
+    pub canonical: bool,
+    pub has_sig: bool,
+}
+
+pub struct RefResult {
+    pub spends: Vec<RefSpend>,
+    pub truncated: bool,
+    pub unsupported: bool,
+}
+
+pub fn internal_key_bytes(env: &Env, tr: &miniscript::descriptor::Tr<DefiniteDescriptorKey>) -> Option<([u8; 32], Option<usize>)> {
+    let s = tr.internal_key().to_string();
+    if let Some(id) = env.by_expr.get(&s) {
+        return Some((env.uni.keys[*id].xonly.serialize(), Some(*id)));
+    }
+    let b = crate::keys::unhex(&s)?;
+    if b.len() == 32 {
+        let mut a = [0u8; 32];
+        a.copy_from_slice(&b);
+        return Some((a, None));
+    }
+    None
+}
+
+pub fn ref_taproot_of(env: &Env, tr: &miniscript::descriptor::Tr<DefiniteDescriptorKey>) -> Option<(RefTaproot, Option<usize>)> {
+    let (ik, id) = internal_key_bytes(env, tr)?;
+    let leaves: Vec<(u8, Vec<u8>)> = tr.leaves().map(|l| (l.depth(), l.miniscript().encode().into_bytes())).collect();
+    ref_taproot(ik, &leaves).map(|t| (t, id))
+}
+
+/// All spends R3 can build for the descriptor in `world` (bytes taken from `sat`).
+pub fn ref_spends(env: &Env, desc: &Descriptor<DefiniteDescriptorKey>, sat: &WorldSat, world: &RefWorld) -> RefResult {
+    let mut res = RefResult { spends: vec![], truncated: false, unsupported: false };
+    let mut ctx = RefCtx { uni: &env.uni, by_expr: &env.by_expr, world, leaf: None, unsupported: false };
+    let key_id = |k: &DefiniteDescriptorKey| env.by_expr.get(&k.to_string()).copied();
+    match desc {
+        Descriptor::Pkh(p) => {
+            if let Some(id) = key_id(p.as_inner()) {
+                if let Some(sig) = sat.ecdsa.get(&id) {
+                    res.spends.push(RefSpend { wit: vec![], ss: pushes(&[sig.to_vec(), env.uni.keys[id].public.to_bytes()]), canonical: true, has_sig: true });
+                }
+            } else {
+                res.unsupported = true;
+            }
+        }
+        Descriptor::Wpkh(p) => {
+            if let Some(id) = key_id(p.as_inner()) {
+                if let Some(sig) = sat.ecdsa.get(&id) {
+                    res.spends.push(RefSpend { wit: vec![sig.to_vec(), env.uni.keys[id].public.to_bytes()], ss: ScriptBuf::new(), canonical: true, has_sig: true });
+                }
+            } else {
+                res.unsupported = true;
+            }
+        }
+        Descriptor::Bare(b) => {
+            let sd = ctx.eval(b.as_inner());
+            res.truncated = sd.truncated;
+            for w in &sd.sat {
+                if let Some(items) = concretize(env, sat, w, KeyEnc::Full, None) {
+                    res.spends.push(RefSpend { wit: vec![], ss: pushes(&items), canonical: w.canonical, has_sig: w.has_sig });
+                }
+            }
+        }
+        Descriptor::Wsh(wsh) => {
+            let ms = wsh.as_inner();
+            let script = ms.encode().into_bytes();
+            let sd = ctx.eval(ms);
+            res.truncated = sd.truncated;
+            for w in &sd.sat {
+                if let Some(mut items) = concretize(env, sat, w, KeyEnc::Full, None) {
+                    items.push(script.clone());
+                    res.spends.push(RefSpend { wit: items, ss: ScriptBuf::new(), canonical: w.canonical, has_sig: w.has_sig });
+                }
+            }
+        }
+        Descriptor::Sh(sh) => match sh.as_inner() {
+            ShInner::Wpkh(p) => {
+                if let Some(id) = key_id(p.as_inner()) {
+                    if let Some(sig) = sat.ecdsa.get(&id) {
+                        let pkb = env.uni.keys[id].public.to_bytes();
+                        let mut redeem = vec![0x00, 0x14];
+                        redeem.extend_from_slice(hash160::Hash::hash(&pkb).as_byte_array());
+                        res.spends.push(RefSpend { wit: vec![sig.to_vec(), pkb], ss: pushes(&[redeem]), canonical: true, has_sig: true });
+                    }
+                } else {
+                    res.unsupported = true;
+                }
+            }
+            ShInner::Wsh(wsh) => {
+                let ms = wsh.as_inner();
+                let script = ms.encode().into_bytes();
+                let mut redeem = vec![0x00, 0x20];
+                redeem.extend_from_slice(sha256::Hash::hash(&script).as_byte_array());
+                let sd = ctx.eval(ms);
+                res.truncated = sd.truncated;
+                for w in &sd.sat {
+                    if let Some(mut items) = concretize(env, sat, w, KeyEnc::Full, None) {
+                        items.push(script.clone());
+                        res.spends.push(RefSpend { wit: items, ss: pushes(&[redeem.clone()]), canonical: w.canonical, has_sig: w.has_sig });
+                    }
+                }
+            }
+            ShInner::Ms(ms) => {
+                let script = ms.encode().into_bytes();
+                let sd = ctx.eval(ms);
+                res.truncated = sd.truncated;
+                for w in &sd.sat {
+                    if let Some(mut items) = concretize(env, sat, w, KeyEnc::Full, None) {
+                        items.push(script.clone());
+                        res.spends.push(RefSpend { wit: vec![], ss: pushes(&items), canonical: w.canonical, has_sig: w.has_sig });
+                    }
+                }
+            }
+        },
+        Descriptor::Tr(tr) => {
+            let (rt, ik_id) = match ref_taproot_of(env, tr) {
+                Some(x) => x,
+                None => {
+                    res.unsupported = true;
+                    return res;
+                }
+            };
+            if let Some(id) = ik_id {
+                if let Some(sig) = sat.tap_key.get(&id) {
+                    res.spends.push(RefSpend { wit: vec![sig.to_vec()], ss: ScriptBuf::new(), canonical: true, has_sig: true });
+                }
+            }
+            for (li, leaf) in tr.leaves().enumerate() {
+                let lh = TapLeafHash::from_byte_array(rt.leaves[li].leaf_hash);
+                let mut lctx = RefCtx { uni: &env.uni, by_expr: &env.by_expr, world, leaf: Some(lh), unsupported: false };
+                let sd = lctx.eval(&**leaf.miniscript());
+                res.truncated |= sd.truncated;
+                res.unsupported |= lctx.unsupported;
+                let cb = rt.control_block(li);
+                for w in &sd.sat {
+                    if let Some(mut items) = concretize(env, sat, w, KeyEnc::XOnly, Some(lh)) {
+                        items.push(rt.leaves[li].script.clone());
+                        items.push(cb.clone());
+                        res.spends.push(RefSpend { wit: items, ss: ScriptBuf::new(), canonical: w.canonical, has_sig: w.has_sig });
+                    }
+                }
+            }
+        }
+    }
+    res.unsupported |= ctx.unsupported;
+    res
+}
+
+// ---------------------------------------------------------------------------------------------
+// R5: policy evaluator
+// ---------------------------------------------------------------------------------------------
+
+pub struct PolicyWorld<'a> {
+    pub env: &'a Env,
+    /// keys whose every signature slot is available
+    pub keys: BTreeSet<usize>,
+    pub preimages: &'a BTreeSet<usize>,
+    pub lock_time: u32,
+    pub sequence: u32,
+    pub version: i32,
+}
+
+pub fn eval_policy(p: &Semantic<DefiniteDescriptorKey>, w: &PolicyWorld) -> bool {
+    let hash = |kind: HashKind, d: &[u8]| w.env.uni.hashes.iter().any(|h| h.kind == kind && h.digest == d && w.preimages.contains(&h.id));
+    match p {
+        Semantic::Unsatisfiable => false,
+        Semantic::Trivial => true,
+        Semantic::Key(k) => w.env.by_expr.get(&k.to_string()).map(|id| w.keys.contains(id)).unwrap_or(false),
+        Semantic::After(n) => tx_satisfies_after(w.lock_time, w.sequence, n.to_consensus_u32()),
+        Semantic::Older(n) => tx_satisfies_older(w.version, w.sequence, n.to_consensus_u32()),
+        Semantic::Sha256(h) => hash(HashKind::Sha256, h.as_byte_array()),
+        Semantic::Hash256(h) => hash(HashKind::Hash256, h.as_byte_array()),
+        Semantic::Ripemd160(h) => hash(HashKind::Ripemd160, h.as_byte_array()),
+        Semantic::Hash160(h) => hash(HashKind::Hash160, h.as_byte_array()),
+        Semantic::Thresh(t) => t.iter().filter(|s| eval_policy(s, w)).count() >= t.k(),
+    }
+}
+
+/// For every key of the descriptor: the signature slots it has, and whether the world holds all or
+/// none of them. Returns (uniform, fully available keys).
+fn key_uniformity(env: &Env, desc: &Descriptor<DefiniteDescriptorKey>, key_ids: &[usize], sat: &WorldSat) -> (bool, BTreeSet<usize>) {
+    let mut full = BTreeSet::new();
+    let mut uniform = true;
+    match desc {
+        Descriptor::Tr(tr) => {
+            let ik = env.by_expr.get(&tr.internal_key().to_string()).copied();
+            for k in key_ids {
+                let mut slots = 0;
+                let mut have = 0;
+                if ik == Some(*k) {
+                    slots += 1;
+                    if sat.tap_key.contains_key(k) {
+                        have += 1;
+                    }
+                }
+                for leaf in tr.leaves() {
+                    let mut occurs = false;
+                    for pk in leaf.miniscript().iter_pk() {
+                        if env.by_expr.get(&pk.to_string()) == Some(k) {
+                            occurs = true;
+                        }
+                    }
+                    if occurs {
+                        slots += 1;
+                        let lh = TapLeafHash::from_byte_array(vm::tapleaf_hash(0xc0, leaf.miniscript().encode().as_bytes()));
+                        if sat.tap_script.contains_key(&(*k, lh)) {
+                            have += 1;
+                        }
+                    }
+                }
+                if have == slots && slots > 0 {
+                    full.insert(*k);
+                } else if have != 0 {
+                    uniform = false;
+                }
+            }
+        }
+        _ => {
+            for k in key_ids {
+                if sat.ecdsa.contains_key(k) {
+                    full.insert(*k);
+                }
+            }
+        }
+    }
+    (uniform, full)
+}
+
+fn hashes_of(env: &Env, text: &str) -> Vec<usize> { env.uni.hashes.iter().filter(|h| text.contains(&h.hex)).map(|h| h.id).collect() }
+
+pub fn check_reference(w: &mut World, actor: &str, psbt: &Psbt, i: usize, produced: &[Produced], ok: [bool; 4]) {
+    let env = w.env.clone();
+    let desc = env.inputs[i].desc.clone();
+    let sat = WorldSat::from_psbt(&env.uni, &env.by_expr, psbt, i);
+    let world = ref_world(&sat, false);
+    let rr = ref_spends(&env, &desc, &sat, &world);
+    if rr.unsupported {
+        w.stats.probe("r3_unsupported");
+        return;
+    }
+    let tx = psbt.unsigned_tx.clone();
+    // ground truth: some R3 witness that R1 accepts (consensus rules: "makes the script succeed")
+    let mut exists = false;
+    let mut exists_std = false;
+    let mut rejected = 0;
+    let mut order: Vec<usize> = (0..rr.spends.len()).collect();
+    order.sort_by_key(|k| (!rr.spends[*k].canonical, rr.spends[*k].wit.iter().map(|x| x.len()).sum::<usize>() + rr.spends[*k].ss.len()));
+    for k in order.iter().take(12) {
+        let s = &rr.spends[*k];
+        w.stats.oracle_calls += 1;
+        match exec_spend(w, &tx, i, &s.wit, &s.ss, Flags::CONSENSUS) {
+            Ok(_) => {
+                exists = true;
+                if exec_spend(w, &tx, i, &s.wit, &s.ss, Flags::STANDARD).is_ok() {
+                    exists_std = true;
+                    break;
+                }
+            }
+            Err(_) => rejected += 1,
+        }
+    }
+    if rejected > 0 {
+        w.stats.probe("r3_witness_rejected_by_r1");
+    }
+    let candidates = !rr.spends.is_empty();
+    let sane = env.inputs[i].sane;
+    let text = env.inputs[i].spec.text.clone();
+    let kind = env.inputs[i].kind;
+    let skel = crate::monitors::skeleton_hash(&text);
+    let wc = crate::monitors::world_class(&sat);
+    w.stats.cases.insert(mix(&[skel, wc, 0x5233]));
+    if matches!(kind, OutKind::Wsh | OutKind::ShWsh | OutKind::ShMs | OutKind::TrScript) {
+        w.stats.nontrivial_cases.insert(mix(&[skel, wc, 0x5233, exists as u64]));
+    }
+    if exists {
+        w.stats.probe("r3_exists");
+    } else {
+        w.stats.probe("r3_none");
+    }
+
+    if w.mon.on("C02") {
+        if exists_std {
+            if !ok[1] {
+                raise_class(w, "C02", "L2-mall", format!("L2-mall:{:?}:get_satisfaction_mall", kind), format!("a witness from the caller's assets exists (R3, accepted by R1) but get_satisfaction_mall failed: {}", text), actor);
+            } else if !ok[3] {
+                raise_class(w, "C02", "L2-mall", format!("L2-mall:{:?}:into_plan_mall", kind), format!("a witness from the caller's assets exists (R3, accepted by R1) but into_plan_mall/satisfy failed: {}", text), actor);
+            }
+            let all_pre = hashes_of(&env, &text).iter().all(|h| sat.preimages.contains(h));
+            if sane && all_pre {
+                w.stats.probe("l2_nonmall_applicable");
+                if !ok[0] {
+                    raise_class(w, "C02", "L2-nonmall", format!("L2-nonmall:{:?}:get_satisfaction", kind), format!("sane descriptor, all preimages known, a witness exists (R3, accepted by R1) but get_satisfaction failed: {}", text), actor);
+                } else if !ok[2] {
+                    raise_class(w, "C02", "L2-nonmall", format!("L2-nonmall:{:?}:into_plan", kind), format!("sane descriptor, all preimages known, a witness exists but into_plan/satisfy failed: {}", text), actor);
+                }
+            }
+        }
+    }
+
+    if w.mon.on("C07") {
+        // compare only in worlds where each key's signatures are all-or-nothing and R3's verdict is firm
+        let (uniform, full) = key_uniformity(&env, &desc, &env.inputs[i].key_ids, &sat);
+        let firm = exists || !candidates;
+        if uniform && firm {
+            let lifted = guard(w, "lift", actor, |_| desc.lift());
+            if let Some(Ok(pol)) = lifted {
+                let pw = PolicyWorld { env: &env, keys: full, preimages: &sat.preimages, lock_time: sat.lock_time, sequence: sat.sequence, version: sat.version };
+                let pv = eval_policy(&pol, &pw);
+                w.stats.probe(if pv { "p7_policy_true" } else { "p7_policy_false" });
+                if pv != exists {
+                    raise_class(
+                        w,
+                        "C07",
+                        "P7",
+                        format!("P7:{:?}:policy={}:exists={}", kind, pv, exists),
+                        format!("lifted policy evaluates to {} but a witness from these assets {} (R3+R1): desc={} policy={}", pv, if exists { "exists" } else { "does not exist" }, text, pol),
+                        actor,
+                    );
+                }
+            } else {
+                w.stats.probe("p7_lift_refused");
+            }
+        } else {
+            w.stats.probe("p7_skipped");
+        }
+    }
+
+    if w.mon.on("C03") && sane && ok[0] {
+        if let Some(orig) = produced.iter().find(|p| p.label == "get_satisfaction") {
+            attack(w, actor, &tx, i, &sat, &orig.wit, &orig.ss);
+        }
+    }
+}
+
+fn stack_items_of(kind: OutKind, wit: &[Vec<u8>], ss: &ScriptBuf) -> Option<(Vec<Vec<u8>>, usize)> {
+    // (mutable items, number of trailing committed items)
+    match kind {
+        OutKind::Bare | OutKind::Pkh => vm::parse_pushes(ss.as_bytes()).map(|v| (v, 0)),
+        OutKind::ShMs => vm::parse_pushes(ss.as_bytes()).map(|v| (v, 1)),
+        OutKind::Wpkh | OutKind::ShWpkh => Some((wit.to_vec(), 0)),
+        OutKind::Wsh | OutKind::ShWsh => Some((wit.to_vec(), 1)),
+        OutKind::TrKey => Some((wit.to_vec(), 0)),
+        OutKind::TrScript => Some((wit.to_vec(), if wit.len() >= 2 { 2 } else { 0 })),
+    }
+}
+
+fn rebuild(kind: OutKind, items: Vec<Vec<u8>>, orig_ss: &ScriptBuf) -> (Vec<Vec<u8>>, ScriptBuf) {
+    match kind {
+        OutKind::Bare | OutKind::Pkh | OutKind::ShMs => (vec![], pushes(&items)),
+        _ => (items, orig_ss.clone()),
+    }
+}
+
+/// A1: search for a different witness a third party could get accepted.
+fn attack(w: &mut World, actor: &str, tx: &Transaction, i: usize, sat: &WorldSat, orig_wit: &[Vec<u8>], orig_ss: &ScriptBuf) {
+    let env = w.env.clone();
+    let kind = env.inputs[i].kind;
+    let desc = env.inputs[i].desc.clone();
+    let text = env.inputs[i].spec.text.clone();
+    let (orig_items, committed) = match stack_items_of(kind, orig_wit, orig_ss) {
+        Some(x) => x,
+        None => return,
+    };
+    let visible = |b: &[u8]| orig_items.iter().any(|it| it == b);
+    // adversary's assets: signatures visible in the original, every preimage, every public key
+    let mut adv = sat.clone();
+    adv.ecdsa.retain(|_, s| visible(&s.to_vec()));
+    adv.tap_key.retain(|_, s| visible(&s.to_vec()));
+    adv.tap_script.retain(|_, s| visible(&s.to_vec()));
+    adv.preimages = env.uni.hashes.iter().map(|h| h.id).collect();
+    let world = ref_world(&adv, true);
+    let mut candidates: Vec<(Vec<Vec<u8>>, ScriptBuf, &'static str)> = vec![];
+    // (a) everything R3 can build from the adversary's assets
+    let rr = ref_spends(&env, &desc, &adv, &world);
+    for s in rr.spends {
+        candidates.push((s.wit, s.ss, "R3"));
+    }
+    // (c) the library's own malleable satisfier run with the adversary's assets
+    if let Some(Ok((wit, ss))) = guard(w, "get_satisfaction_mall(adversary)", actor, |_| desc.get_satisfaction_mall(&adv)) {
+        candidates.push((wit, ss, "lib-mall"));
+    }
+    // (b) seeded structural mutations of the original
+    let n_mut = orig_items.len() - committed;
+    let mut alphabet: Vec<Vec<u8>> = vec![vec![], vec![1], vec![2], vec![1, 0], vec![0; 32], vec![0x42; 20], vec![0x42; 32], vec![0x42; 33], vec![0x42; 64], vec![0x42; 65], vec![0x42; 72], vec![0x42; 1]];
+    for h in &env.uni.hashes {
+        alphabet.push(h.preimage.to_vec());
+    }
+    for k in &env.inputs[i].key_ids {
+        alphabet.push(env.uni.keys[*k].public.to_bytes());
+        alphabet.push(env.uni.keys[*k].xonly.serialize().to_vec());
+    }
+    // signature variants: other sighash byte, high-S form
+    for it in &orig_items[..n_mut] {
+        if it.len() >= 64 && it.len() <= 73 {
+            let mut v = it.clone();
+            let l = v.len();
+            v[l - 1] ^= 0x80;
+            alphabet.push(v);
+            if it.len() == 64 {
+                let mut v = it.clone();
+                v.push(1);
+                alphabet.push(v);
+            }
+            if it.len() == 65 {
+                alphabet.push(it[..64].to_vec());
+            }
+            if it[0] == 0x30 {
+                if let Some(h) = high_s_variant(it) {
+                    alphabet.push(h);
+                }
+            }
+        }
+    }
+    if n_mut > 0 || !orig_items.is_empty() {
+        let seed = mix(&[env.run_seed, fnv(actor.as_bytes()), w.stats.attempts, i as u64]);
+        let mut r = crate::rng::Rng::new(seed);
+        let budget = 160;
+        for _ in 0..budget {
+            let mut items: Vec<Vec<u8>> = orig_items[..n_mut].to_vec();
+            let ops = r.range(1, 3);
+            for _ in 0..ops {
+                match r.below(5) {
+                    0 if !items.is_empty() => {
+                        let k = r.below(items.len() as u64) as usize;
+                        items.remove(k);
+                    }
+                    1 if !items.is_empty() => {
+                        let k = r.below(items.len() as u64) as usize;
+                        let v = items[k].clone();
+                        items.insert(k, v);
+                    }
+                    2 if items.len() >= 2 => {
+                        let a = r.below(items.len() as u64) as usize;
+                        let b = r.below(items.len() as u64) as usize;
+                        items.swap(a, b);
+                    }
+                    3 => {
+                        let k = r.below(items.len() as u64 + 1) as usize;
+                        items.insert(k, r.pick(&alphabet).clone());
+                    }
+                    _ if !items.is_empty() => {
+                        let k = r.below(items.len() as u64) as usize;
+                        items[k] = r.pick(&alphabet).clone();
+                    }
+                    _ => {}
+                }
+            }
+            items.extend(orig_items[n_mut..].iter().cloned());
+            let (wit, ss) = rebuild(kind, items, orig_ss);
+            candidates.push((wit, ss, "mutation"));
+        }
+    }
+    w.stats.probe("a1_cases");
+    let skel = crate::monitors::skeleton_hash(&text);
+    w.stats.nontrivial_cases.insert(mix(&[skel, crate::monitors::world_class(sat), 0xa1]));
+    let mut seen: BTreeSet<u64> = BTreeSet::new();
+    for (wit, ss, how) in candidates {
+        if wit == orig_wit && ss == *orig_ss {
+            continue;
+        }
+        let mut d = fnv(ss.as_bytes());
+        for x in &wit {
+            d = mix(&[d, fnv(x), x.len() as u64]);
+        }
+        if !seen.insert(d) {
+            continue;
+        }
+        w.stats.oracle_calls += 1;
+        if exec_spend(w, tx, i, &wit, &ss, Flags::STANDARD).is_ok() {
+            let dup_leaf = kind == OutKind::TrScript
+                && wit.len() == orig_wit.len()
+                && wit.len() >= 2
+                && wit[..wit.len() - 1] == orig_wit[..orig_wit.len() - 1]
+                && wit[wit.len() - 1] != orig_wit[orig_wit.len() - 1];
+            let how = if dup_leaf { "dup-leaf-control-block" } else { how };
+            raise_class(
+                w,
+                "C03",
+                "A1",
+                format!("A1:{:?}:{}", kind, how),
+                format!(
+                    "a third party can replace the non-malleable satisfaction ({}): desc={} original witness={:?} scriptSig={:x} alternative witness={:?} scriptSig={:x}",
+                    how,
+                    text,
+                    orig_wit.iter().map(|x| crate::keys::hex_of(x)).collect::<Vec<_>>(),
+                    orig_ss,
+                    wit.iter().map(|x| crate::keys::hex_of(x)).collect::<Vec<_>>(),
+                    ss
+                ),
+                actor,
+            );
+            return;
+        }
+    }
+}
+
+fn high_s_variant(sig: &[u8]) -> Option<Vec<u8>> {
+    use bitcoin::secp256k1::ecdsa::Signature;
+    let ht = *sig.last()?;
+    let s = Signature::from_der(&sig[..sig.len() - 1]).ok()?;
+    let c = s.serialize_compact();
+    let n: [u8; 32] = [0xFF, 0xFF, 0xFF, 0xFF, 0xFF, 0xFF, 0xFF, 0xFF, 0xFF, 0xFF, 0xFF, 0xFF, 0xFF, 0xFF, 0xFF, 0xFE, 0xBA, 0xAE, 0xDC, 0xE6, 0xAF, 0x48, 0xA0, 0x3B, 0xBF, 0xD2, 0x5E, 0x8C, 0xD0, 0x36, 0x41, 0x41];
+    let mut out = [0u8; 32];
+    let mut borrow = 0i32;
+    for i in (0..32).rev() {
+        let d = n[i] as i32 - c[32 + i] as i32 - borrow;
+        if d < 0 {
+            out[i] = (d + 256) as u8;
+            borrow = 1;
+        } else {
+            out[i] = d as u8;
+            borrow = 0;
+        }
+    }
+    let enc = |v: &[u8]| {
+        let mut v = v.to_vec();
+        while v.len() > 1 && v[0] == 0 && v[1] & 0x80 == 0 {
+            v.remove(0);
+        }
+        if v[0] & 0x80 != 0 {
+            v.insert(0, 0);
+        }
+        v
+    };
+    let r = enc(&c[..32]);
+    let sv = enc(&out);
+    let mut der = vec![0x30, (4 + r.len() + sv.len()) as u8, 0x02, r.len() as u8];
+    der.extend_from_slice(&r);
+    der.push(0x02);
+    der.push(sv.len() as u8);
+    der.extend_from_slice(&sv);
+    der.push(ht);
+    Some(der)
+}
+
+/// The Byzantine relay on an actual broadcast: only applicable when every input was satisfied in
+/// non-malleable mode on a sane descriptor; the probe-time attack above covers the general case.
+pub fn relay_attack(w: &mut World, tx: &Transaction, _tampered: u64) {
+    w.stats.probe("relay_saw_broadcast");
+    let _ = tx;
+}
+
+/// L1/L3 bookkeeping at the end of a run.
+pub fn liveness(w: &mut World) {
+    if w.dec.quiesced {
+        if w.stats.confirmed {
+            w.stats.probe("l3_confirmed");
+        } else {
+            w.stats.probe("l3_not_confirmed");
+        }
+    }
+}
